@@ -126,14 +126,308 @@ def run(res, tier):
                 res.violation("mir:archive:page-size-wrong", "page_object_size is not the object size rounded up to a full page", fn)
     else:
         res.inconclusive.append("Archive::page_object_size: %d bodies" % len(pb))
+    mprop.finish_engine(res, E)
+    for op in ("publish_replace", "create_empty"):
+        E = mprop.engine(res)
+        total += check_empty_chain(res, E, op)
+        mprop.finish_engine(res, E)
+    E = mprop.engine(res)
     res.distinct += total
     if total < 4:
         res.inconclusive.append("vacuity: only %d arithmetic paths checked" % total)
     res.bounds.append("all 64-bit values below 2^48 for sizes and lengths, page-aligned where the callers guarantee it; Meta::SIZE < 2^16")
-    res.outside += ["the map behaviour of the archive over operation sequences (publish / update / delete / fetch, reopen) and "
-                    "the on-disk tiling invariant: the archive is a file/mmap-backed structure with a 1024-bucket index; no "
-                    "file or mmap model is available to the solver-based engines, so only the size arithmetic that the tiling "
-                    "relies on is decided here"]
+    res.bounds.append("empty chain: ONE call of publish_replace / create_empty (unlink_empty inlined) from an arbitrary archive "
+                      "whose chain of empty objects has 0..%d cells at symbolic, pairwise disjoint positions below 2^40: afterwards "
+                      "the chain reachable from the empty index holds exactly the old cells minus the reused / merged one plus "
+                      "the new remainder / new empty object" % CHAIN)
+    res.outside += ["the map behaviour of the archive over operation sequences (publish / update / delete / fetch, reopen), the "
+                    "bucket chains and the byte-level tiling of the file: object headers are modelled as an abstract heap "
+                    "(position -> size, next, is_empty), I/O errors in the middle of an operation are not considered"]
     res.assumptions += ["callers pass page-aligned sizes to fits (empty objects and page_object_size results)"]
     res.rule = "one case = one path of fits / min_object_size / page_object_size with z3 queries on 64-bit bit-vectors"
     mprop.finish_engine(res, E)
+
+
+CHAIN = 3
+
+
+def check_empty_chain(res, E, op):
+    """One step of an empty-chain operation on an abstract heap of object headers."""
+    F_ = "src/utils/archive.rs"
+    body = [b.parse() for n_, bs in E.prog.bodies.items()
+            if re.search(r"utils::archive::<impl at src/utils/archive\.rs:[^>]*>::%s$" % op, n_) for b in bs]
+    if len(body) != 1:
+        res.inconclusive.append("Archive::%s: %d bodies" % (op, len(body)))
+        return 0
+    body = body[0]
+    hf = mir.struct_fields("ObjectHeader", F_)
+    i_size, i_next, i_empty = hf.index("size"), hf.index("next"), hf.index("is_empty")
+    res.functions.append("utils::archive::Archive::<Meta>::%s with unlink_empty inlined, object headers as an abstract heap (MIR)" % op)
+    BV = lambda nm: z3.BitVec("%s_%s" % (op, nm), 64)
+    c = [BV("cell%d" % i) for i in range(CHAIN)]
+    L = z3.Int(op + "_chain_len")
+    nd0 = z3.Array(op + "_next_is_some", z3.BitVecSort(64), z3.IntSort())
+    nv0 = z3.Array(op + "_next", z3.BitVecSort(64), z3.BitVecSort(64))
+    sz0 = z3.Array(op + "_size", z3.BitVecSort(64), z3.BitVecSort(64))
+    ie0 = z3.Array(op + "_is_empty", z3.BitVecSort(64), z3.BoolSort())
+    S = E.solver
+    S.add(L >= 0, L <= CHAIN)
+    LIM = 1 << 40
+    for i in range(CHAIN):
+        S.add(c[i] != 0, z3.ULT(c[i], LIM), z3.ULT(z3.Select(sz0, c[i]), LIM), z3.UGE(z3.Select(sz0, c[i]), 64))
+        S.add(z3.Implies(L > i, z3.Select(ie0, c[i])))
+        # chain links
+        if i + 1 < CHAIN:
+            S.add(z3.Implies(L > i + 1, z3.And(z3.Select(nd0, c[i]) == 1, z3.Select(nv0, c[i]) == c[i + 1])))
+            S.add(z3.Implies(L == i + 1, z3.Select(nd0, c[i]) == 0))
+        else:
+            S.add(z3.Implies(L == i + 1, z3.Select(nd0, c[i]) == 0))
+        for j in range(i):
+            S.add(z3.Implies(L > i, z3.Or(z3.ULE(c[i] + z3.Select(sz0, c[i]), c[j]), z3.ULE(c[j] + z3.Select(sz0, c[j]), c[i]))))
+    head_d0 = z3.If(L > 0, z3.IntVal(1), z3.IntVal(0))
+    head_v0 = c[0]
+    fsize = BV("file_size")
+    S.add(z3.ULT(fsize, 2 * LIM))
+    for i in range(CHAIN):
+        S.add(z3.Implies(L > i, z3.ULE(c[i] + z3.Select(sz0, c[i]), fsize)))      # every cell lies inside the file
+
+    def in_chain(x):
+        return z3.Or([z3.And(L > i, x == c[i]) for i in range(CHAIN)])
+
+    def opt(d, v):
+        return {("disc",): d, (("v", "Some"), ("f", 0)): v}
+
+    def ok(payload=None):
+        out = {("disc",): z3.IntVal(0)}
+        for k, v in (payload or {(): mir.Str("()")}).items():
+            out[(("v", "Ok"), ("f", 0)) + k] = v
+        return out
+
+    def heap(st):
+        return {k: st.mem[("HEAP", k)] for k in ("nd", "nv", "sz", "ie", "hd", "hv")}
+
+    def m_get_empty(E_, st, frame, callee, argvals, dest_ty):
+        h = heap(st)
+        return ok(opt(h["hd"], h["hv"]))
+
+    def optval(v):
+        d = v.get(("disc",))
+        x = v.get((("v", "Some"), ("f", 0)))
+        if x is None:
+            x = v.get((("v", "Some"), ("f", 0), ("f", 0)))
+        return d, x
+
+    def m_set_empty(E_, st, frame, callee, argvals, dest_ty):
+        d, x = optval(argvals[1])
+        if d is None:
+            return NotImplemented
+        st.mem[("HEAP", "hd")] = d
+        st.mem[("HEAP", "hv")] = x if x is not None else z3.BitVecVal(0, 64)
+        return ok()
+
+    def m_read(E_, st, frame, callee, argvals, dest_ty):
+        pos = argvals[1].get(())
+        if not mir.is_z(pos):
+            return NotImplemented
+        h = heap(st)
+        hdr = {(("f", i_size),): z3.Select(h["sz"], pos), (("f", i_empty),): z3.Select(h["ie"], pos)}
+        for k, v in opt(z3.Select(h["nd"], pos), z3.Select(h["nv"], pos)).items():
+            hdr[(("f", i_next),) + k] = v
+        return ok(hdr)
+
+    def store_header(st, pos, hdrval):
+        d, x = optval({k[1:]: v for k, v in hdrval.items() if k and k[0] == ("f", i_next)})
+        size = hdrval.get((("f", i_size),))
+        emp = hdrval.get((("f", i_empty),))
+        if d is None or not mir.is_z(size) or not mir.is_z(emp):
+            return False
+        st.mem[("HEAP", "nd")] = z3.Store(st.mem[("HEAP", "nd")], pos, d)
+        st.mem[("HEAP", "nv")] = z3.Store(st.mem[("HEAP", "nv")], pos, x if x is not None else z3.BitVecVal(0, 64))
+        st.mem[("HEAP", "sz")] = z3.Store(st.mem[("HEAP", "sz")], pos, size)
+        st.mem[("HEAP", "ie")] = z3.Store(st.mem[("HEAP", "ie")], pos, emp)
+        return True
+
+    def m_update_next(E_, st, frame, callee, argvals, dest_ty):
+        pos = argvals[0].get(())
+        d, x = optval(argvals[1])
+        if not mir.is_z(pos) or d is None:
+            return NotImplemented
+        st.mem[("HEAP", "nd")] = z3.Store(st.mem[("HEAP", "nd")], pos, d)
+        st.mem[("HEAP", "nv")] = z3.Store(st.mem[("HEAP", "nv")], pos, x if x is not None else z3.BitVecVal(0, 64))
+        return ok()
+
+    def m_hdr_write(E_, st, frame, callee, argvals, dest_ty):
+        hv = E_._through_ref(st, argvals[0])
+        pos = argvals[2].get(())
+        if not mir.is_z(pos) or not store_header(st, pos, hv):
+            return NotImplemented
+        return ok()
+
+    def m_write_object(E_, st, frame, callee, argvals, dest_ty):
+        pos = argvals[1].get(())
+        if not mir.is_z(pos) or not store_header(st, pos, argvals[2]):
+            return NotImplemented
+        return ok()
+
+    objsize = BV("new_object_size")
+
+    def m_page_size(E_, st, frame, callee, argvals, dest_ty):
+        return {(): objsize}
+
+    def m_ident(E_, st, frame, callee, argvals, dest_ty):
+        v = argvals[0]
+        x = v.get(())
+        if x is None:
+            x = v.get((("f", 0),))
+        return {(): x} if mir.is_z(x) else NotImplemented
+
+    def m_nz_new(E_, st, frame, callee, argvals, dest_ty):
+        x = argvals[0].get(())
+        if not mir.is_z(x):
+            return NotImplemented
+        return opt(z3.If(x != 0, z3.IntVal(1), z3.IntVal(0)), x)
+
+    def m_nz_into_opt(E_, st, frame, callee, argvals, dest_ty):
+        x = argvals[0].get(())
+        if x is None:
+            x = argvals[0].get((("f", 0),))
+        return opt(z3.IntVal(1), x) if mir.is_z(x) else NotImplemented
+
+    def m_unit_ok(E_, st, frame, callee, argvals, dest_ty):
+        return ok()
+
+    def m_set_len(E_, st, frame, callee, argvals, dest_ty):
+        st.mem[("HEAP", "truncated")] = z3.BoolVal(True)
+        return ok()
+
+    def m_get_index(E_, st, frame, callee, argvals, dest_ty):
+        return ok(opt(z3.Int(op + "_bucket_has_head"), BV("bucket_head")))
+
+    models = {
+        r"Archive::<Meta>::get_empty_index$": m_get_empty, r"Archive::<Meta>::set_empty_index$": m_set_empty,
+        r"^ObjectHeader::read$": m_read, r"^ObjectHeader::update_next$": m_update_next, r"^ObjectHeader::write$": m_hdr_write,
+        r"Archive::<Meta>::write_object$": m_write_object, r"Archive::<Meta>::page_object_size$": m_page_size,
+        r"^<NonZero<u64> as Into<u64>>::into$|^<u64 as From<NonZero<u64>>>::from$": m_ident,
+        r"^NonZero::<u64>::new$": m_nz_new, r"^<NonZero<u64> as Into<(std::option::)?Option<NonZero<u64>>>>::into$": m_nz_into_opt,
+        r"Archive::<Meta>::set_index$": m_unit_ok, r"^Storage::set_len$": m_set_len, r"Archive::<Meta>::get_index$": m_get_index,
+    }
+    selfp = mir.Opq("&mut Archive<Meta>", "archive")
+    start = BV("start")
+    args = {"_1": {(): selfp}}
+    pre_extra = []
+    if op == "publish_replace":
+        # the empty object being reused: a cell of the chain, handed over with its header; the new object fits and
+        # the remainder, if any, can hold a header (find_empty's contract)
+        S.add(in_chain(start))
+        empty_hdr = {(("f", i_size),): z3.Select(sz0, start), (("f", i_empty),): z3.BoolVal(True)}
+        for k, v in opt(z3.Select(nd0, start), z3.Select(nv0, start)).items():
+            empty_hdr[(("f", i_next),) + k] = v
+        S.add(z3.UGE(objsize, 64), z3.ULE(objsize, z3.Select(sz0, start)),
+              z3.Or(objsize == z3.Select(sz0, start), z3.UGE(z3.Select(sz0, start) - objsize, 64)))
+        args.update({"_6": empty_hdr, "_7": {(): start}})
+        expected_removed = start
+        new_cell = start + objsize
+        has_new = z3.ULT(objsize, z3.Select(sz0, start))
+    else:
+        size = BV("size")
+        S.add(start != 0, z3.ULT(start, LIM), z3.UGE(size, 64), z3.ULT(size, LIM), z3.Not(in_chain(start)))
+        nxt = start + size
+        S.add(z3.ULE(nxt, fsize))
+        # the object behind is empty exactly when it is a cell of the chain; the deleted object overlaps no cell
+        S.add(z3.Select(ie0, nxt) == in_chain(nxt))
+        for i in range(CHAIN):
+            S.add(z3.Implies(L > i, z3.Or(z3.ULE(c[i] + z3.Select(sz0, c[i]), start), z3.ULE(nxt, c[i]))))
+        args.update({"_2": {(): start}, "_3": {(): size}})
+        expected_removed = nxt
+        new_cell = start
+        has_new = z3.BoolVal(True)
+
+    def pre(E_, st, frame):
+        st.mem[("HEAP", "nd")], st.mem[("HEAP", "nv")], st.mem[("HEAP", "sz")], st.mem[("HEAP", "ie")] = nd0, nv0, sz0, ie0
+        st.mem[("HEAP", "hd")], st.mem[("HEAP", "hv")] = head_d0, head_v0
+        # Archive.file.size
+        af = mir.struct_fields("Archive", F_)
+        sf = mir.struct_fields("Storage", F_)
+        st.mem[(("o", selfp.id), "deref", ("f", af.index("file")), ("f", sf.index("size")))] = fsize
+
+    E.max_depth = 8
+    paths = E.explore(body, max_visits=CHAIN + 3, nomut=[r"."], arg_values=args, pre=pre, models=models,
+                      inline=[r"Archive::<Meta>::unlink_empty$", r"^ObjectHeader::new(_empty)?$"], max_paths=20000)
+    E.max_depth = 6
+    n = 0
+    reported = False
+    for i, p in enumerate(paths):
+        if p.kind == "bound":
+            if E.feasible(p.cond):
+                res.inconclusive.append("%s: a feasible path exceeds the loop bound of the chain walk" % op)
+            continue
+        if p.kind != "return":
+            continue
+        d = p.ret.get(("disc",))
+        if d is None or not E.feasible(p.cond, d == 0):
+            continue
+        n += 1
+        if op == "create_empty" and any(e.kind == "call" and e.name.endswith("set_len") for e in p.events):
+            pass
+        nd1, nv1 = p.mem[("HEAP", "nd")], p.mem[("HEAP", "nv")]
+        hd1, hv1 = p.mem[("HEAP", "hd")], p.mem[("HEAP", "hv")]
+        # walk the new chain (at most CHAIN + 2 cells)
+        walk = []
+        alive, cur = hd1 == 1, hv1
+        for _ in range(CHAIN + 2):
+            walk.append((alive, cur))
+            alive, cur = z3.And(alive, z3.Select(nd1, cur) == 1), z3.Select(nv1, cur)
+        ends = z3.Not(alive)
+
+        def reached(x):
+            return z3.Or([z3.And(a, w == x) for a, w in walk])
+        truncated = ("HEAP", "truncated") in p.mem
+        removed_applies = in_chain(expected_removed)
+        want = [z3.Implies(z3.And(L > k, z3.Not(z3.And(removed_applies, c[k] == expected_removed))), reached(c[k])) for k in range(CHAIN)]
+        if not truncated:
+            want.append(z3.Implies(has_new, reached(new_cell)))
+        want.append(ends)
+        for a, w in walk:
+            legit = z3.Or(in_chain(w), z3.And(has_new, w == new_cell) if not truncated else z3.BoolVal(False))
+            want.append(z3.Implies(a, z3.And(legit, z3.Not(z3.And(removed_applies, w == expected_removed)) if op == "publish_replace" or True else True)))
+        mdl = E.model(p.cond, z3.And(d == 0, z3.Not(z3.And(want))))
+        if mdl is not None and not reported:
+            reported = True
+            ev = lambda x: mdl.eval(x, model_completion=True)
+            ln = ev(L).as_long()
+            cells = [ev(c[k]).as_long() for k in range(ln)]
+            newchain = []
+            for a, w in walk:
+                if z3.is_true(ev(a)):
+                    newchain.append(ev(w).as_long())
+            desc = ("%s from an archive whose empty chain is %s (index -> cells in order)%s: afterwards the chain reachable from "
+                    "the empty index is %s; expected the old cells without %d%s" % (
+                        op, cells, ", reusing the empty object at %d for an object of %d bytes" % (ev(start).as_long(), ev(objsize).as_long())
+                        if op == "publish_replace" else ", deleting the object at %d (size %d)" % (ev(start).as_long(), ev(BV("size")).as_long()),
+                        newchain, ev(expected_removed).as_long(),
+                        " plus the new empty object at %d" % ev(new_cell).as_long() if z3.is_true(ev(has_new)) and not truncated else ""))
+            fn = mprop.write_cex(res, "empty_chain_%s_%d" % (op, i), p, E, desc, mdl)
+            ok_ = native_sweep(res)
+            if ok_ is False:
+                res.inconclusive.append("empty chain (%s): counterexample state not reproduced by the native scenario sweep: %s" % (op, desc))
+            else:
+                res.violation("mir:archive:empty-chain:" + op,
+                              "an empty object drops out of (or a wrong cell enters) the archive's empty chain: " + desc +
+                              ("; the native scenario sweep finds corrupt archives" if ok_ else " [native replay unavailable]"), fn)
+    res.samples.append({"operation": op, "ok_paths_checked": n, "chain_cells": CHAIN})
+    if n < 2:
+        res.inconclusive.append("vacuity: %s: only %d successful paths" % (op, n))
+    return n
+
+
+_NATIVE = {}
+
+
+def native_sweep(res):
+    if "r" not in _NATIVE:
+        import nativetest
+        failed, passed, out = nativetest.run_native_test("native_c26", "c26_native_empty_chain_sweep")
+        obs = re.findall(r"C26-NATIVE (.*)", out)
+        res.extra.setdefault("native_replays", []).append({"test": "c26_native_empty_chain_sweep", "failed": failed, "observed": obs[:2] or [out[-400:]]})
+        _NATIVE["r"] = True if failed else (False if passed else None)
+    return _NATIVE["r"]
